@@ -184,11 +184,13 @@ Proof.
 Qed.
 
 (* ---------- trees ---------- *)
-Inductive ftree := FLeaf (x : fdesc) (v : value) | FNode (nm : name) (cs : list ftree).
+(* FLeafM: any parameter which has been shown to append (the leaf lemmas below) *)
+Inductive ftree := FLeaf (x : fdesc) (v : value) | FLeafM (m : member) | FNode (nm : name) (cs : list ftree).
 
 Fixpoint t_member (t : ftree) : member :=
   match t with
   | FLeaf x v => mkM (mkp x) (if is_value x then Some v else None) v
+  | FLeafM m => m
   | FNode nm cs =>
     let ms := map t_member cs in
     mkM (struct_param nm ms) (Some (VDict (in_dict ms))) (VDict (out_dict ms))
@@ -197,12 +199,14 @@ Fixpoint t_member (t : ftree) : member :=
 Fixpoint depth (t : ftree) : nat :=
   match t with
   | FLeaf _ _ => 0
+  | FLeafM _ => 0
   | FNode _ cs => S (fold_right (fun c a => Nat.max (depth c) a) 0%nat cs)
   end.
 
 Fixpoint wf (t : ftree) : Prop :=
   match t with
   | FLeaf x v => fits x v
+  | FLeafM m => appends_ge 2 2 (m_p m) (m_in m) (m_out m) /\ no_lenkey (m_p m)
   | FNode nm cs =>
     NoDup (map (fun c => m_name (t_member c)) cs) /\
     (fix all (l : list ftree) : Prop := match l with [] => True | c :: r => wf c /\ all r end) cs
@@ -222,11 +226,12 @@ Proof.
   destruct H as [<-|H]; [lia|]. specialize (IH H). lia.
 Qed.
 
-Lemma member_no_lenkey t : no_lenkey (m_p (t_member t)).
+Lemma member_no_lenkey t : wf t -> no_lenkey (m_p (t_member t)).
 Proof.
-  destruct t as [x v|nm cs]; cbn [t_member m_p].
-  - unfold mkp, no_lenkey. destruct (f_const x); exact I.
-  - exact I.
+  destruct t as [x v|m|nm cs]; cbn [t_member m_p wf].
+  - intros _. unfold mkp, no_lenkey. destruct (f_const x); exact I.
+  - now intros [_ H].
+  - intros _. exact I.
 Qed.
 
 Lemma appends_ge_weaken n m n' m' p vin vout :
@@ -238,15 +243,17 @@ Theorem tree_appends : forall d t,
   appends_ge (3 * d + 2) (3 * d + 2) (m_p (t_member t)) (m_in (t_member t)) (m_out (t_member t)).
 Proof.
   induction d as [|d IH]; intros t Hd Hwf.
-  - destruct t as [x v|nm cs]; [|cbn [depth] in Hd; lia].
-    cbn [t_member m_p m_in m_out]. now apply leaf_appends.
-  - destruct t as [x v|nm cs].
+  - destruct t as [x v|m|nm cs]; [| |cbn [depth] in Hd; lia].
+    + cbn [t_member m_p m_in m_out]. now apply leaf_appends.
+    + cbn [t_member]. exact (proj1 Hwf).
+  - destruct t as [x v|m|nm cs].
     + cbn [t_member m_p m_in m_out]. eapply appends_ge_weaken; [now apply leaf_appends | lia | lia].
+    + cbn [t_member]. eapply appends_ge_weaken; [exact (proj1 Hwf) | lia | lia].
     + destruct (wf_children nm cs Hwf) as [ND Hc].
       cbn [t_member m_p m_in m_out].
       replace (3 * S d + 2)%nat with (3 + (3 * d + 2))%nat by lia.
       apply struct_appends; [|exact ND].
-      intros x Hx. apply in_map_iff in Hx as (c & <- & Hin). split; [|apply member_no_lenkey].
+      intros x Hx. apply in_map_iff in Hx as (c & <- & Hin). split; [|apply member_no_lenkey; now apply Hc].
       apply IH; [|now apply Hc]. pose proof (depth_children nm cs c Hin). lia.
 Qed.
 
@@ -281,8 +288,8 @@ Proof.
     pose proof (keys_none F ps (set_eop s' false)) as Hkeys. unfold keys_go in Hkeys.
     rewrite Hkeys.
     + cbn [bind e_msg e_warn set_origin set_cur set_eop]. rewrite Hwarn. reflexivity.
-    + intros p Hp. unfold ps, ms in Hp. rewrite map_map in Hp. apply in_map_iff in Hp as (t & <- & _).
-      apply member_no_lenkey.
+    + intros p Hp. unfold ps, ms in Hp. rewrite map_map in Hp. apply in_map_iff in Hp as (t & <- & Ht).
+      apply member_no_lenkey. now apply Hts.
   - unfold decode_msg. rewrite EF. cbn [dec_composite dstate0 d_origin d_cur dset_origin d_msg d_bit d_lkeys].
     specialize (Hdec [] 0 [] []). rewrite app_nil_r in Hdec. unfold dec_go in Hdec. fold ps in Hdec.
     cbn [s0 estate0 e_cur set_eop set_origin] in Hdec.
@@ -305,3 +312,127 @@ Example tree_example :
   decode_msg ps [34; 1; 188; 10; 3; 255] = Ok (VDict (out_dict ms)) /\
   (3 * 2 + 3 <= fuel_of ps)%nat.
 Proof. cbv zeta. split; [vm_compute; reflexivity|]. split; [vm_compute; reflexivity|]. vm_compute. lia. Qed.
+
+(* ====================================================================================== *)
+(* further leaf kinds                                                                      *)
+(* ====================================================================================== *)
+
+Lemma atom_eqb_refl_instance bt v : isinstance_bt bt v = true -> atom_eqb v v = true.
+Proof.
+  destruct bt, v; cbn; try discriminate; intros _; try apply Z.eqb_refl; try (now apply bytes_eqb_eq).
+Qed.
+
+(* ---------- PHYS-CONST over a standard-length DOP ---------- *)
+Definition physconst_param (x : fdesc) (cv : value) : param :=
+  P (f_name x) None None (KPhysConst (DSimple (Std (f_bt x) (f_en x) (f_hl x) (f_bl x) None) CIdent (f_pt x)) cv).
+
+Lemma physconst_appends x cv :
+  f_const x = None -> fits x cv -> appends_ge 2 2 (physconst_param x cv) None cv.
+Proof.
+  intros Hc (Hbl & Hwide & Hpt & Hbt & Hcod & _) fe fd Hfe Hfd s kv Hend Hl.
+  destruct fe as [|[|fe]]; try lia. destruct fd as [|[|fd]]; try lia.
+  cbn [physconst_param pname] in Hl.
+  destruct (emplace_val_at_end (set_bit s 0) cv (f_bl x) (f_bt x) (f_en x) (f_hl x) (at_end_set_bit s Hend) Hbl Hwide Hcod)
+    as (s1 & w & He & Hend1 & Hm & Hw & Hcur & Hwarn & Ho & Heop & Hlk & Hkp & Hrq & Hread).
+  cbn [set_bit e_msg e_cur e_warn e_origin e_eop e_lkeys e_keypos e_req] in *.
+  exists (set_bit s1 0), w. split; [|split; [|split; [|split; [|split]]]].
+  - unfold physconst_param. cbn [enc_param]. unfold is_required. cbn [pkind_of negb orb guard bind].
+    unfold vget. rewrite Hl. cbn [is_none orb guard bind opt_or0].
+    cbn [enc_dop]. cbn [valid_phys]. rewrite Hpt. cbn [guard bind p2i enc_dct std_apply_mask std_used_mask].
+    rewrite He. reflexivity.
+  - destruct Hend1 as (A & B & C & D). repeat split; auto.
+  - cbn. exact Hwarn.
+  - cbn. exact Ho.
+  - cbn. exact Hm.
+  - intros r o lk. unfold physconst_param. cbn [dec_param]. cbn [opt_or0 dset_bit d_msg d_origin d_cur d_lkeys].
+    cbn [dec_dop dec_dct]. unfold dset_bit at 1. cbn [d_msg d_origin d_cur d_lkeys]. cbn [set_bit e_msg e_cur].
+    rewrite Hread. cbn [bind]. cbn [valid_int dct_bt]. rewrite Hbt. cbn [i2p bind fst snd].
+    rewrite (atom_eqb_refl_instance _ _ Hbt). cbn [fst snd dset_bit d_msg d_origin d_cur d_lkeys]. reflexivity.
+Qed.
+
+(* ---------- a byte field with LEADING-LENGTH-INFO-TYPE ---------- *)
+Definition leading_param (nm : name) (bl : Z) (hl : bool) : param :=
+  P nm None None (KValue (DSimple (Leading BBytes None hl bl) CIdent BBytes) None).
+
+Lemma emplace_empty_at_end s : at_end s ->
+  exists s', emplace_bytes (set_bit s 0) [] None = Ok s' /\ at_end s' /\ e_msg s' = e_msg s /\ e_cur s' = e_cur s /\
+             e_warn s' = e_warn s /\ e_origin s' = e_origin s.
+Proof.
+  intros (Hb & Hc & Hu & Hok). unfold emplace_bytes. cbn [set_bit e_bit Z.eqb negb e_cur e_msg e_used].
+  cbn [blen List.length Z.of_nat]. rewrite Z.add_0_r.
+  assert (G1 : grow (e_cur s) (e_msg s) = e_msg s) by (unfold grow; rewrite Hc, Z.sub_diag; apply app_nil_r).
+  assert (G2 : grow (e_cur s) (e_used s) = e_used s) by (unfold grow; rewrite Hu, Z.sub_diag; apply app_nil_r).
+  rewrite G1, G2.
+  assert (S1 : forall m : list Z, e_cur s = blen m -> splice (e_cur s) [] m = m).
+  { intros m Hm. unfold splice, take, drop. cbn [app blen List.length Z.of_nat]. rewrite Z.add_0_r, Hm.
+    unfold blen. rewrite Nat2Z.id, firstn_all, skipn_all. apply app_nil_r. }
+  eexists. split; [reflexivity|]. cbn.
+  rewrite (S1 (e_msg s) Hc). rewrite (S1 (e_used s)) by (symmetry; exact Hu).
+  repeat split; auto; try lia. apply orb_false_r.
+Qed.
+
+Lemma codable_bytes b hl : bytes_ok b = true -> 0 < blen b -> codable (VBytes b) (8 * blen b) BBytes None hl.
+Proof.
+  intros Hok Hn. assert (Hr : raw_of (VBytes b) (8 * blen b) BBytes None hl = Ok (be_int b)).
+  { unfold raw_of. now rewrite Z.eqb_refl. }
+  destruct (bytes_raw_roundtrip b (8 * blen b) None hl (be_int b) Hok Hr) as [A B].
+  exists (be_int b). auto.
+Qed.
+
+Lemma leading_appends nm bl hl b :
+  0 < bl <= 64 -> bytes_ok b = true -> blen b < 2 ^ bl ->
+  appends_ge 2 2 (leading_param nm bl hl) (Some (VBytes b)) (VBytes b).
+Proof.
+  intros Hbl Hok Hlen fe fd Hfe Hfd s kv Hend Hl.
+  destruct fe as [|[|fe]]; try lia. destruct fd as [|[|fd]]; try lia.
+  cbn [leading_param pname] in Hl. pose proof (blen_nonneg b) as Hnn.
+  (* the length *)
+  destruct (emplace_val_at_end (set_bit s 0) (VInt (blen b)) bl BUint None hl (at_end_set_bit s Hend) ltac:(lia)
+              ltac:(cbn [is_numeric andb]; lia) (codable_uint (blen b) bl hl ltac:(lia) ltac:(lia)))
+    as (s1 & w1 & He1 & Hend1 & Hm1 & Hw1 & Hc1 & Hwarn1 & Ho1 & _ & _ & _ & _ & Hread1).
+  cbn [set_bit e_msg e_cur e_warn e_origin] in *.
+  (* the bytes *)
+  assert (S2 : exists s2 w2,
+             emplace_atomic s1 (VBytes b) (8 * blen b) BBytes None hl None = Ok s2 /\ at_end s2 /\
+             e_msg s2 = e_msg s1 ++ w2 /\ e_warn s2 = e_warn s1 /\ e_origin s2 = e_origin s1 /\
+             forall r o lk, extract_atomic (mkD (e_msg s2 ++ r) o (e_cur s1) 0 lk) (8 * blen b) BBytes None hl
+                            = Ok (VBytes b, mkD (e_msg s2 ++ r) o (e_cur s2) 0 lk)).
+  { destruct (Z.eq_dec (blen b) 0) as [Z0|NZ].
+    - assert (b = []) by (destruct b; [reflexivity | unfold blen in Z0; cbn in Z0; lia]). subst b.
+      destruct (emplace_empty_at_end s1 Hend1) as (s2 & He2 & Hend2 & Hm2 & Hc2 & Hw2 & Ho2).
+      exists s2, []. split; [|split; [exact Hend2|split; [now rewrite app_nil_r|split; [exact Hw2|split; [exact Ho2|]]]]].
+      + unfold emplace_atomic. cbn. exact He2.
+      + intros r o lk. unfold extract_atomic. cbn. rewrite Hm2, Hc2. reflexivity.
+    - destruct (emplace_val_at_end s1 (VBytes b) (8 * blen b) BBytes None hl Hend1 ltac:(lia) eq_refl
+                  (codable_bytes b hl Hok ltac:(lia)))
+        as (s2 & w2 & He2 & Hend2 & Hm2 & Hw2 & Hc2 & Hwarn2 & Ho2 & _ & _ & _ & _ & Hread2).
+      exists s2, w2. repeat split; auto; apply Hend2. }
+  destruct S2 as (s2 & w2 & He2 & Hend2 & Hm2 & Hwarn2 & Ho2 & Hread2).
+  exists (set_bit s2 0), (w1 ++ w2). split; [|split; [|split; [|split; [|split]]]].
+  - unfold leading_param. cbn [enc_param]. unfold is_required. cbn [pkind_of]. rewrite Hl. cbn [negb orb guard bind].
+    unfold vget. rewrite Hl. cbn [is_none negb guard bind opt_or0].
+    cbn [enc_dop]. cbn [valid_phys isinstance_bt guard bind p2i enc_dct]. rewrite He1. cbn [bind]. rewrite He2. reflexivity.
+  - destruct Hend2 as (A & B & C & D). repeat split; auto.
+  - cbn. congruence.
+  - cbn. congruence.
+  - cbn. rewrite Hm2, Hm1. now rewrite app_assoc.
+  - intros r o lk. unfold leading_param. cbn [dec_param]. cbn [opt_or0 dset_bit d_msg d_origin d_cur d_lkeys].
+    cbn [dec_dop dec_dct]. unfold dset_bit at 1. cbn [d_msg d_origin d_cur d_lkeys]. cbn [set_bit e_msg e_cur].
+    assert (R1 : e_msg s2 ++ r = e_msg s1 ++ (w2 ++ r)) by (rewrite Hm2; now rewrite <- app_assoc).
+    rewrite R1, Hread1. cbn [bind]. rewrite <- R1, Hread2. cbn [bind].
+    cbn [valid_int dct_bt isinstance_bt i2p bind fst snd dset_bit d_msg d_origin d_cur d_lkeys]. reflexivity.
+Qed.
+
+(* a request with a nested structure, a physical constant and a length-prefixed byte field *)
+Example tree_example2 :
+  let u8 nm := mkF nm 8 BUint None true BUint None in
+  let ts := [FLeaf (mkF [115] 8 BUint None true BUint (Some (VInt 34))) (VInt 34);
+             FLeafM (mkM (physconst_param (u8 [107]) (VInt 7)) None (VInt 7));
+             FNode [111] [FLeaf (u8 [97]) (VInt 1);
+                          FLeafM (mkM (leading_param [108] 8 true) (Some (VBytes [170; 187])) (VBytes [170; 187]))];
+             FLeafM (mkM (leading_param [101] 16 false) (Some (VBytes [])) (VBytes []))] in
+  let ms := map t_member ts in
+  let ps := map m_p ms in
+  encode_msg ps None (VDict (in_dict ms)) = Ok ([34; 7; 1; 2; 170; 187; 0; 0], false) /\
+  decode_msg ps [34; 7; 1; 2; 170; 187; 0; 0] = Ok (VDict (out_dict ms)).
+Proof. cbv zeta. split; vm_compute; reflexivity. Qed.
